@@ -403,8 +403,22 @@ func (u *c11Run) faithful(cfg *types.Config, cond string) {
 		for _, p := range j.On {
 			want.OnPairs = append(want.OnPairs, types.JoinOnPair{StreamField: p[0], TableField: p[1]})
 		}
-		if len(cfg.JoinConfigs) != 1 || !reflect.DeepEqual(cfg.JoinConfigs[0], want) {
-			u.viol("faithful.join", "JoinConfigs", fmt.Sprintf("Config.JoinConfigs=%+v, written %+v", cfg.JoinConfigs, want), "join_written", strings.Join(j.Written, "_"))
+		wants := []types.JoinConfig{want}
+		written := strings.Join(j.Written, "_")
+		if j2 := s.Join2; j2 != nil {
+			al2 := j2.Alias
+			if al2 == "" {
+				al2 = j2.Table
+			}
+			w2 := types.JoinConfig{Table: j2.Table, Alias: al2, JoinType: j2.Type}
+			for _, p := range j2.On {
+				w2.OnPairs = append(w2.OnPairs, types.JoinOnPair{StreamField: p[0], TableField: p[1]})
+			}
+			wants = append(wants, w2)
+			written += "+" + strings.Join(j2.Written, "_")
+		}
+		if !reflect.DeepEqual(cfg.JoinConfigs, wants) {
+			u.viol("faithful.join", "JoinConfigs", fmt.Sprintf("Config.JoinConfigs=%+v, written %+v", cfg.JoinConfigs, wants), "join_written", written)
 		}
 	} else if len(cfg.JoinConfigs) != 0 {
 		u.viol("faithful.join", "JoinConfigs", fmt.Sprintf("Config.JoinConfigs=%+v without a JOIN", cfg.JoinConfigs))
@@ -676,6 +690,12 @@ func c11RunDirect(sql string, st *c11Stmt, rows []Row, tables []Row) c11Out {
 	if st.Join != nil {
 		if _, err := s.RegisterTable(st.Join.Table, tables); err != nil {
 			return c11Out{Err: "RegisterTable: " + err.Error()}
+		}
+		if st.Join2 != nil {
+			zones := []map[string]any{{"zone": "k1", "region": "r1"}, {"zone": "k2", "region": "r2"}}
+			if _, err := s.RegisterTable(st.Join2.Table, zones, "zone"); err != nil {
+				return c11Out{Err: "RegisterTable: " + err.Error()}
+			}
 		}
 	}
 	var o c11Out
